@@ -9,6 +9,7 @@ from mc import evidence, explore, harness as H, par, peer as P, report
 PID = 'C12'
 ALL_SIZES = [512, 768, 1024, 1536, 2048, 3072, 4096, 6144, 8192]
 QUICK_SIZES = [1024, 1536, 2048, 3072, 4096]
+STYLES = (P.STRICT, P.ROUNDUP, P.OPENSSH, P.LENIENT)      # lenient = RFC 4419 section 3 read literally (min/max not enforced)
 LARGE_SETS = [(6144,), (8192,), (6144, 8192), (2048, 6144), (2048, 8192), (1024, 6144), (3072, 8192), (4096, 6144)]
 SHA1, SHA256 = 'diffie-hellman-group-exchange-sha1', 'diffie-hellman-group-exchange-sha256'
 OFFERS = {'sha1': [SHA1], 'sha256': [SHA256], 'both': [SHA256, SHA1]}
@@ -208,14 +209,14 @@ def work_history(chunk, st):
 def run(tier, seed):
     t0 = time.time()
     sizes = QUICK_SIZES if tier == 'quick' else ALL_SIZES
-    tasks = [(sub, style, offer, banner) for sub in subsets(sizes) for style in (P.STRICT, P.ROUNDUP, P.OPENSSH)
+    tasks = [(sub, style, offer, banner) for sub in subsets(sizes) for style in STYLES
              for offer in OFFERS for banner in BANNERS]
-    tasks += [(sub, style, offer, banner) for sub in subsets([2048, 3072, 4096]) for style in (P.STRICT, P.ROUNDUP, P.OPENSSH) for offer in OFFERS for banner in ODD_BANNERS]
+    tasks += [(sub, style, offer, banner) for sub in subsets([2048, 3072, 4096]) for style in STYLES for offer in OFFERS for banner in ODD_BANNERS]
     split = [(1024,), (2048,), (3072,), (4096,), (2048, 4096), (1536, 3072)]
-    tasks += [(('split', a, b), style, 'both', banner) for a in split for b in split if a != b for style in (P.STRICT, P.ROUNDUP, P.OPENSSH) for banner in BANNERS]
+    tasks += [(('split', a, b), style, 'both', banner) for a in split for b in split if a != b for style in STYLES for banner in BANNERS]
     if tier == 'quick':
         # servers whose smallest (or only other) modulus lies above every range the probe sequence asks for
-        tasks += [(sub, style, offer, banner) for sub in LARGE_SETS for style in (P.STRICT, P.ROUNDUP, P.OPENSSH)
+        tasks += [(sub, style, offer, banner) for sub in LARGE_SETS for style in STYLES
                   for offer in OFFERS for banner in BANNERS]
     st = par.pmap(work, tasks)
     par.pmap(work_faults, fault_tasks(tier), stats=st)
@@ -234,7 +235,7 @@ def run(tier, seed):
     validated = H.validate_traces(vcases, st)
     return evidence.finish(
         PID, tier, seed, st, t0,
-        rule='every subset of %s (%d) x selection style {strict, round-up, OpenSSH with fallback} x offered {sha1, sha256, both} x banner '
+        rule='every subset of %s (%d) x selection style {strict, round-up, OpenSSH with fallback, lenient} x offered {sha1, sha256, both} x banner '
              '{OpenSSH, other}, text and JSON; plus every message-level fault (close, stall, reset, garbage, wrong lengths/type, debug, duplicate, '
              'refuse, timeout) at every probe connection of three representative servers%s' % (
                  sizes, 2 ** len(sizes), ('; plus the size sets %s (moduli above every requested range)' % (LARGE_SETS,) if tier == 'quick' else '') +
